@@ -112,7 +112,62 @@ def kernels():
 
 # ---------------------------------------------------------------------------------------------------------
 def _scale(rng, tier):
-    return 2.0 ** (rng.randint(-30, 30) if tier == "thorough" else rng.randint(-10, 10))
+    """power-of-two scale; every tier draws a share of its cases at extreme scales (absolute thresholds only bite there)"""
+    if tier in ("thorough", "search"):
+        return 2.0 ** rng.randint(-30, 30)
+    r = rng.random()
+    if r < 0.15:
+        return 2.0 ** rng.randint(-30, -12)
+    if r < 0.25:
+        return 2.0 ** rng.randint(12, 30)
+    return 2.0 ** rng.randint(-10, 10)
+
+
+ACCESSORS = ("min_x", "min_y", "min_z", "max_x", "max_y", "max_z", "mid_x", "mid_y", "mid_z", "width", "height", "depth",
+             "center_point", "floor_point", "volume", "surface_area", "ranges", "v") + PLANES
+
+
+def _read(b, name, mutate=False):
+    """value of one accessor as a flat list of floats; with `mutate` the returned array (or the plane's reference
+    point) is then overwritten in place, which must not influence any later answer of the box"""
+    x = getattr(b, name)
+    if name in PLANES:
+        val = list(x.reference_point) + list(x.normal)
+        arr = x.reference_point
+    else:
+        arr = x
+        val = list(np.asarray(x, dtype=np.float64).reshape(-1))
+    val = [float(t) for t in val]
+    if mutate and isinstance(arr, np.ndarray) and arr.flags.writeable and name not in ("min_x",):
+        try:
+            arr += 1.0
+        except Exception:
+            pass
+    return val
+
+
+def _round_cloud(rng, scale):
+    """a genuinely 3-D cloud: antipodal (or nearly antipodal) pairs well inside the bounding box plus the six axis
+    points that alone attain the per-axis minima and maxima; the farthest pair is often strictly inside the box"""
+    pts = []
+    for _ in range(rng.randint(1, 4)):
+        p = [rng.choice([-1, 1]) * rng.randint(2, 8) / 2 for _ in range(3)]
+        pts.append(p)
+        m = [-x for x in p]
+        if rng.random() < 0.4:
+            m[rng.randrange(3)] += rng.choice([-0.5, 0.5])
+        pts.append(m)
+    for _ in range(rng.randint(0, 3)):
+        pts.append(grid_vec(rng, -2, 2))
+    big = max(abs(x) for p in pts for x in p) + rng.choice([0.5, 0.5, 1.0])
+    for ax in range(3):
+        for sg in (-1, 1):
+            e = [0.0, 0.0, 0.0]
+            e[ax] = sg * big
+            pts.append(e)
+    rng.shuffle(pts)
+    off = [0.0, 0.0, 0.0] if rng.random() < 0.6 else [x * 2.0 ** rng.choice([3, 8]) for x in grid_vec(rng)]
+    return [[(x + o) * scale for x, o in zip(p, off)] for p in pts]
 
 
 def _cloud(rng, scale, lo=1, hi=7):
@@ -143,7 +198,11 @@ def gen_cases(rng, n, tier):
             if rng.random() < 0.2:
                 s[rng.randrange(3)] = -rng.choice([1, 2, 3]) / 2 * scale
                 kind = "box_negative"
-            cases.append({"kind": kind, "origin": o, "size": s})
+            # a call sequence on ONE Box object: accessor reads in random order, some followed by an in-place
+            # modification of the returned array; every answer is compared with that of a fresh Box
+            seq = [[rng.choice(ACCESSORS if rng.random() < 0.5 else PLANES + ("center_point", "floor_point", "mid_x", "mid_y", "mid_z", "v")),
+                    rng.random() < 0.25] for _ in range(rng.randint(4, 12))]
+            cases.append({"kind": kind, "origin": o, "size": s, "sequence": seq})
         elif r < 0.4:
             if rng.random() < 0.08:
                 cases.append({"kind": "from_points_empty", "points": []})
@@ -176,7 +235,7 @@ def gen_cases(rng, n, tier):
             if rng.random() < 0.1:
                 cases.append({"kind": "extent_too_few", "points": _cloud(rng, scale, 0, 1)[:rng.randint(0, 1)]})
             else:
-                cases.append({"kind": "extent", "points": _cloud(rng, scale, 2, 7)})
+                cases.append({"kind": "extent", "points": _round_cloud(rng, scale) if rng.random() < 0.4 else _cloud(rng, scale, 2, 7)})
         else:
             pts = _cloud(rng, scale, 1, 7)
             m = rng.random()
@@ -210,8 +269,13 @@ def run_impl(c):
         if kind.startswith("box"):
             o, s = np.array(c["origin"]), np.array(c["size"])
             b = Box(o, s)
+            seq_vals, fresh_vals = [], []
+            for name, mutate in c.get("sequence", []):
+                seq_vals.append(_read(b, name, mutate))
+                fresh_vals.append(_read(Box(np.array(c["origin"]), np.array(c["size"])), name))
             obs = [float(x) for x in _box_observables(b)]
-            return {"obs": obs, "args_unchanged": bool(np.array_equal(o, np.array(c["origin"])) and np.array_equal(s, np.array(c["size"])))}
+            fresh_obs = [float(x) for x in _box_observables(Box(np.array(c["origin"]), np.array(c["size"])))]
+            return {"obs": obs, "fresh_obs": fresh_obs, "seq_vals": seq_vals, "fresh_vals": fresh_vals, "args_unchanged": bool(np.array_equal(o, np.array(c["origin"])) and np.array_equal(s, np.array(c["size"])))}
         if kind.startswith("from_points"):
             ps = _pts(c["points"])
             before = ps.copy()
@@ -285,8 +349,18 @@ def _box_oracle(c, o):
     if not o["args_unchanged"]:
         return "constructor arguments were modified"
     og, sz = _F(c["origin"]), _F(c["size"])
+    # derived quantities follow from origin and size alone: whatever was read (or done to a returned array) before,
+    # the same Box object must answer like a fresh Box
+    done = []
+    for (name, mutate), got, want in zip(c.get("sequence", []), o["seq_vals"], o["fresh_vals"]):
+        if got != want:
+            return "%s read after %s returned %r on the same Box, a fresh Box(origin, size) gives %r" % (name, done or "nothing", got, want)
+        done.append(name + ("(returned array then modified)" if mutate else ""))
+    if o["obs"] != o["fresh_obs"]:
+        k = [i for i, (a, b) in enumerate(zip(o["obs"], o["fresh_obs"])) if a != b][0]
+        return "after the reads %s, observable #%d of the same Box is %r, a fresh Box gives %r" % (done, k, o["obs"][k], o["fresh_obs"][k])
     v = _F(o["obs"])
-    mag = max([1] + [abs(x) for x in og + sz])
+    mag = max([abs(x) for x in og + sz] + [Fr(1, 2 ** 1000)])
     mn, mx, mid, whd = v[0:3], v[3:6], v[6:9], v[9:12]
     center, floor, vol, area = v[12:15], v[15:18], v[18], v[19]
     ranges, corners, planes = v[20:26], v[26:50], v[50:86]
@@ -390,7 +464,7 @@ def _percentile_oracle(c, o):
     ax = _F(c["axis"])
     n = len(ps)
     r = _F(o["point"])
-    mag = max([1] + [abs(x) for p in ps for x in p])
+    mag = max([abs(x) for p in ps for x in p] + [Fr(1, 2 ** 1000)])  # relative to the data, not floored at 1
     norm = Fr(math.sqrt(float(sum(x * x for x in ax))))
     u = [x / norm for x in ax]
     coords = sorted(sum(p[j] * u[j] for j in range(3)) for p in ps)
